@@ -749,6 +749,34 @@ fn check_c12_case(case: &OrderCase, _env: &mut Env) -> Verdict {
                 if a < t_start - 1_000_000_000 {
                     v.fail(format!("as-of {} precedes the start of the iteration {} by more than a second", a, t_start));
                 }
+                // the pairing must survive publication: the record keeps this report's bound through
+                // later non-synchronised answers, and with it the as-of reading taken before the
+                // request that produced the bound (a later reading would hide the drift in between)
+                if let Some(Message::ClockErrorBoundData((tracking, phc, as_of))) = obs.messages.first() {
+                    let sink = RecSink::default();
+                    let mut up = dv::Updater::new(sink.clone(), 1000);
+                    up.process_clock_update(tracking.clone(), *phc, *as_of);
+                    let first = sink.0.borrow().last().copied().unwrap_or_default();
+                    if first.status == 1 {
+                        v.label("report-followed-through-publication");
+                        let later = a + 1_000_000_000 + case.age_ns as i128;
+                        let mut t2 = tracking.clone();
+                        t2.leap_status = 3;
+                        up.process_clock_update(t2, *phc, ts(later));
+                        up.process_missing_clock_update(true);
+                        v.sub_evals += 1;
+                        let last = sink.0.borrow().last().copied().unwrap_or_default();
+                        if last.bound == first.bound && last.as_of_ns_total() > t_query {
+                            v.fail(format!(
+                                "the published record still carries the bound {} of the report requested at {}, but its as-of instant {} was read after that request (after a later unsynchronised answer polled at {})",
+                                last.bound,
+                                t_query,
+                                last.as_of_ns_total(),
+                                later
+                            ));
+                        }
+                    }
+                }
             }
             (Some(Message::ClockErrorBoundData(_)), None) => v.fail("a report was emitted without asking chronyd".into()),
             _ => {}
@@ -843,7 +871,7 @@ impl Property for C12 {
     type Case = OrderCase;
     const ID: &'static str = "C12";
     fn rule() -> String {
-        "cases = (daemon side) one real poller iteration under a virtual clock that advances by a generated delay before every clock read (0, 1 ns, us..100 s) with a scripted chronyd reply after a generated latency; (client side) a generated record read by the real now() with generated delays before the realtime read and between the two reads, executed twice (with and without the second delay). Oracle from the logged clock reads and the query-seam log: the as-of of the emitted report is not later than a monotonic(-coarse) read whose log position precedes the query (and not more than 1 s before the iteration started), hence <= the instant the request was issued; now() reads CLOCK_REALTIME before the monotonic clock; inserting delay d between the client's reads never shrinks the half-width and yields bound + drift*(age+d) (C05 tolerance). Non-trivial: a positive delay was inserted between the ordered pair.".into()
+        "cases = (daemon side) one real poller iteration under a virtual clock that advances by a generated delay before every clock read (0, 1 ns, us..100 s) with a scripted chronyd reply after a generated latency; (client side) a generated record read by the real now() with generated delays before the realtime read and between the two reads, executed twice (with and without the second delay); a synchronised (report, as-of) pair is also fed to the real updater followed by a non-synchronised answer polled 1..101 s later: the record that still carries the report's bound must carry an as-of instant not later than the report's request. Oracle from the logged clock reads and the query-seam log: the as-of of the emitted report is not later than a monotonic(-coarse) read whose log position precedes the query (and not more than 1 s before the iteration started), hence <= the instant the request was issued; now() reads CLOCK_REALTIME before the monotonic clock; inserting delay d between the client's reads never shrinks the half-width and yields bound + drift*(age+d) (C05 tolerance). Non-trivial: a positive delay was inserted between the ordered pair.".into()
     }
     fn cases(tier: Tier) -> u64 {
         match tier {
